@@ -21,7 +21,7 @@ BUDGET = {'quick': (4, 600), 'thorough': (16, 10000)}
 ASSUMPTIONS = ['!append in the very first document is not generated (statement: fails; fixture: plain list)',
                '!prev destinations hold nothing or a scalar (a mapping moved onto a mapping merges key-wise by the ordinary rules)']
 
-KEYS = ['a', 'b', 'c', 'l', '_p', 1, 7]       # integer keys too: a path component that is an int need not be a list index
+KEYS = ['a', 'b', 'c', 'l', '_p', 1, 7, 'v1.0', 'my-key']       # integer keys and keys that are not plain names too (the latter cannot be spelled in the path text of a !prev)
 LEAF = st.one_of(st.integers(0, 9), st.sampled_from(['s', 't', 2.5, None, True, 0, False, '', 0.0]))
 
 
@@ -123,10 +123,11 @@ def _stage(draw, cur):
             used.append(p)
         else:
             missing = draw(st.integers(0, 5)) == 0
-            if missing or not paths:
+            spellable = [p for p in paths if all(not isinstance(c, str) or c.replace('_', 'a').isalnum() for c in p)]
+            if missing or not spellable:
                 src = ('nope',)
             else:
-                src = paths[draw(st.integers(0, len(paths) - 1))]
+                src = spellable[draw(st.integers(0, len(spellable) - 1))]
             dmode = draw(st.sampled_from(['fresh', 'fresh', 'scalar']))
             cand = [p for p in paths if not isinstance(_get(cur, p), (dict, list)) and not through_list(cur, p)] if dmode == 'scalar' else []
             if cand:
